@@ -20,8 +20,9 @@ def _levels(kind: str, a0: int, b0: int, s0: int, d1: int, b1: int, s1: int) -> 
     return (l0, Level(True, post=b1, snaps=s1 if b1 else 0))
 
 
-def run_snap(kind: str, is_async: bool, a0: int, b0: int, s0: int, d1: int, b1: int, s1: int, act: int,
+def run_snap(kind: str, is_async: bool, a0: int, b0: int, s0: int, d1: int, b1: int, s1: int, act: int, po: int,
              tp: bool, q0: bool, q1: bool, q2: bool, xs: List[int]) -> Tuple[bool, bool]:
+    po = conc(po, 0, 2)  # who asks for OLD: postconditions + error factories / error factories only / nobody
     a0, b0, s0, d1, b1, s1, act = conc(a0, 0, 1), conc(b0, 0, 2), conc(s0, 0, 2), conc(d1, 0, 2), conc(b1, 0, 1), conc(s1, 0, 1), conc(act, 0, 3)
     prog = Prog(kind=kind, is_async=is_async, levels=_levels(kind, a0, b0, s0, d1, b1, s1))
     eff = effective(prog)
@@ -52,7 +53,7 @@ def run_snap(kind: str, is_async: bool, a0: int, b0: int, s0: int, d1: int, b1: 
             kw["x"] = [MARK]  # rebinding the local name only
         return None
 
-    built = get_built(prog, "factory_kw")
+    built = get_built(prog, "factory_kw", post_old=po)
     rt = RT(tv=tv, body=body, error_mode="factory_kw", capture=capture)
     built.rt = rt
     try:
@@ -107,8 +108,8 @@ def run_snap(kind: str, is_async: bool, a0: int, b0: int, s0: int, d1: int, b1: 
     for (label, kw) in rt.seen:
         if label[0] == "snap" and kw.get("x") is not arg:
             ok = False
-    witness = saw_old and act in (1, 2)
-    note((kind, is_async, a0, b0, s0, d1, b1, s1, act, tuple(log), raised is not None), witness)
+    witness = (saw_old and act in (1, 2)) or (expect_capture and po == 2)
+    note((kind, is_async, a0, b0, s0, d1, b1, s1, act, po, tuple(log), raised is not None), witness)
     return ok, witness
 
 
@@ -212,7 +213,7 @@ def _misuse(m: int, k: int) -> Tuple[bool, bool]:
     return False, False
 
 
-ALL = ["a0", "b0", "s0", "d1", "b1", "s1", "act", "tp", "q0", "q1", "q2", "xs"]
+ALL = ["a0", "b0", "s0", "d1", "b1", "s1", "act", "po", "tp", "q0", "q1", "q2", "xs"]
 
 
 def harnesses(tier: str) -> List[H]:
@@ -226,14 +227,14 @@ def harnesses(tier: str) -> List[H]:
             defaults = {"d1": d1, "b1": 0, "s1": 0}
             if d1 == 2:
                 params += [I("b1", 0, 1), I("s1", 0, 1)]
-            params += [I("act", 0, 3), B("tp"), B("q0"), B("q1"), B("q2"),
+            params += [I("act", 0, 3), I("po", 0, 2), B("tp"), B("q0"), B("q1"), B("q2"),
                        L("xs", 2 if tier == "quick" else 3, -3, 3)]
             name = "snap_{}{}{}".format(kind, "_async" if is_async else "", "" if kind == "func" else "_d%d" % d1)
             out.append(H(name, bind(run_snap, (kind, is_async), ALL, defaults, [p.name for p in params]), params,
                          tiers=(tier,), timeout=600,
                          family="kind={} async={}: own precondition 0..1, postconditions 0..2, snapshots (copy, len); "
                                 "subclass level {}; body leaves / appends / clears / rebinds its list "
-                                "argument".format(kind, is_async, ["absent", "not overriding",
+                                "argument; OLD asked for by postconditions+error factories / error factories only / nobody".format(kind, is_async, ["absent", "not overriding",
                                                                    "overriding with post 0..1 + snapshot 0..1"][d1]),
                              family_size=2 * 3 * 3 * (4 if d1 == 2 else 1) * 4))
     out.append(H("snap_misuse", bind(run_misuse, (), ["m", "k"], {}, ["m", "k"]),
